@@ -281,39 +281,7 @@ func runC07(tier string) int {
 				seq[i] = atoms[x%nA]
 				x /= nA
 			}
-			c07Sequence(seq, func(c c07Call) {
-				r.Add("evaluations", 1)
-				if c.err != nil {
-					r.Report(harness.Violation{Sig: "C07:error", Summary: fmt.Sprintf("FormatText(%q) returned error %v", c.text, c.err), Replay: map[string]interface{}{"text": c.text, "error": c.err.Error()}})
-					return
-				}
-				problem, ab, am := checkFormatted(c.out, c.toks, c.font, c.maxW, c.overlap, c.numLines)
-				if ab > 0 {
-					r.Add("nontrivial", 1)
-					r.Add("automatic_breaks", int64(ab))
-				}
-				r.Add("lines_exactly_at_max", int64(am))
-				if problem != "" {
-					bad := c
-					r.Report(harness.Violation{
-						Sig:     "C07:" + firstWords(problem, 3),
-						Summary: fmt.Sprintf("FormatText(%q, maxWidth=%d, cursorOverlap=%d, font=%s, numLines=%d) = %q: %s", c.text, c.maxW, c.overlap, c.font.id, c.numLines, c.out, problem),
-						Replay:  map[string]interface{}{"text": c.text, "maxLineLength": c.maxW, "cursorOverlapWidth": c.overlap, "fontId": c.font.id, "numLines": c.numLines, "font_widths": c.font.widths, "output": c.out, "problem": problem, "note": "calls are made on one FontConfig per text, in the order fonts x numLines x overlap x maxLineLength"},
-						Recheck: func() bool {
-							again := false
-							c07Sequence(seq, func(d c07Call) {
-								if d.font.id == bad.font.id && d.maxW == bad.maxW && d.overlap == bad.overlap && d.numLines == bad.numLines && d.err == nil {
-									p2, _, _ := checkFormatted(d.out, d.toks, d.font, d.maxW, d.overlap, d.numLines)
-									again = p2 != ""
-								}
-							})
-							return again
-						},
-					})
-				} else if ab >= 2 && r.WantSample() {
-					r.Sample(map[string]interface{}{"text": c.text, "maxLineLength": c.maxW, "cursorOverlapWidth": c.overlap, "fontId": c.font.id, "numLines": c.numLines, "output": c.out})
-				}
-			})
+			c07EvalSeq(r, seq)
 		})
 		if done {
 			completed = L
@@ -322,6 +290,35 @@ func runC07(tier string) int {
 	if completed < maxLen {
 		r.NotExhaustive(fmt.Sprintf("completed atom sequences of length <= %d of planned <= %d", completed, maxLen))
 	}
+	// the size dimension: texts of K atoms for every K up to a bound (words of rotating widths, single and double
+	// spaces, a break code every few words)
+	maxK := 48
+	if tier == "thorough" {
+		maxK = 160
+	}
+	longDone := r.Parallel(uint64(maxK)*3, func(w int, idx uint64) {
+		k := int(idx/3) + maxLen + 1
+		pat := int(idx % 3)
+		words := []fmtAtom{atoms[0], atoms[1], atoms[2], atoms[3], atoms[4], atoms[5]}
+		brks := []fmtAtom{atoms[8], atoms[9], atoms[10], atoms[11], atoms[12]}
+		var seq []fmtAtom
+		for i := 0; len(seq) < k; i++ {
+			seq = append(seq, words[(i*(pat+1)+pat)%len(words)])
+			if pat == 1 && i%6 == 5 {
+				seq = append(seq, brks[(i/6)%len(brks)])
+			} else if pat == 2 && i%3 == 2 {
+				seq = append(seq, atoms[7])
+			} else {
+				seq = append(seq, atoms[6])
+			}
+		}
+		r.Add("long_texts", 1)
+		c07EvalSeq(r, seq)
+	})
+	if !longDone {
+		r.NotExhaustive("long texts not completed")
+	}
+	r.Set("long_text_max_atoms", maxK+maxLen)
 	r.Set("max_atoms_completed", completed)
 	r.Set("atoms", len(atoms))
 	c07Compiled(r)
@@ -329,7 +326,44 @@ func runC07(tier string) int {
 		"a moved word 'does not fit' when previous line + space + word (+ overlap when the line would show the prompt and anything follows the word) exceeds maxLineLength",
 		"the word/break sequence of a text is known from the generator's atoms; the compiler's own tokeniser is not consulted")
 	return r.Finish(r.Get("evaluations"), r.Get("nontrivial"),
-		"every sequence of <= L atoms (3 plain words, a multi-byte word, 2 control codes incl. one with an inner space, single/double space, \\n \\l \\p \\N, a raw newline) x 2 synthetic fonts (with/without default width, space width 1 and 3) x numLines 1..3 x cursorOverlap {0,1,3,40} x every maxLineLength from 1 to longest line+1, called through the exported FormatText; plus a cross-product of format() spellings compiled end to end; non-trivial = the output contains >= 1 automatic break")
+		"every sequence of <= L atoms (3 plain words, a multi-byte word, 2 control codes incl. one with an inner space, single/double space, \\n \\l \\p \\N, a raw newline) x 2 synthetic fonts (with/without default width, space width 1 and 3) x numLines 1..3 x cursorOverlap {0,1,3,40} x every maxLineLength from 1 to longest line+1, called through the exported FormatText; plus long texts of K atoms for every K up to the bound in the coverage (3 patterns); plus a cross-product of format() spellings compiled end to end; non-trivial = the output contains >= 1 automatic break")
+}
+
+// c07EvalSeq makes every call for one atom sequence and judges each result.
+func c07EvalSeq(r *harness.Run, seq []fmtAtom) {
+	c07Sequence(seq, func(c c07Call) {
+		r.Add("evaluations", 1)
+		if c.err != nil {
+			r.Report(harness.Violation{Sig: "C07:error", Summary: fmt.Sprintf("FormatText(%q) returned error %v", c.text, c.err), Replay: map[string]interface{}{"text": c.text, "error": c.err.Error()}})
+			return
+		}
+		problem, ab, am := checkFormatted(c.out, c.toks, c.font, c.maxW, c.overlap, c.numLines)
+		if ab > 0 {
+			r.Add("nontrivial", 1)
+			r.Add("automatic_breaks", int64(ab))
+		}
+		r.Add("lines_exactly_at_max", int64(am))
+		if problem != "" {
+			bad := c
+			r.Report(harness.Violation{
+				Sig:     "C07:" + firstWords(problem, 3),
+				Summary: fmt.Sprintf("FormatText(%q, maxWidth=%d, cursorOverlap=%d, font=%s, numLines=%d) = %q: %s", c.text, c.maxW, c.overlap, c.font.id, c.numLines, c.out, problem),
+				Replay:  map[string]interface{}{"text": c.text, "maxLineLength": c.maxW, "cursorOverlapWidth": c.overlap, "fontId": c.font.id, "numLines": c.numLines, "font_widths": c.font.widths, "output": c.out, "problem": problem, "note": "calls are made on one FontConfig per text, in the order fonts x numLines x overlap x maxLineLength"},
+				Recheck: func() bool {
+					again := false
+					c07Sequence(seq, func(d c07Call) {
+						if d.font.id == bad.font.id && d.maxW == bad.maxW && d.overlap == bad.overlap && d.numLines == bad.numLines && d.err == nil {
+							p2, _, _ := checkFormatted(d.out, d.toks, d.font, d.maxW, d.overlap, d.numLines)
+							again = p2 != ""
+						}
+					})
+					return again
+				},
+			})
+		} else if ab >= 2 && r.WantSample() {
+			r.Sample(map[string]interface{}{"text": c.text, "maxLineLength": c.maxW, "cursorOverlapWidth": c.overlap, "fontId": c.font.id, "numLines": c.numLines, "output": c.out})
+		}
+	})
 }
 
 type c07Call struct {
